@@ -1,2 +1,10 @@
 SPECIFICATION TraceSpec
+CONSTANTS
+  G <- TraceG
+  Ops = 1
+  PutEarly = FALSE
+  ResetOnError = TRUE
+  LazyInit = "static"
+  MayFail = TRUE
+INVARIANT TraceInv
 CHECK_DEADLOCK FALSE
